@@ -89,8 +89,9 @@ impl Program {
 
     pub fn link(&mut self) -> (Address, Arc<Vec<Error>>, Arc<Vec<Error>>) {
         match self.link.last() {
-            // A trailing line without code (REM, DATA) is a branch target whose address is
-            // the end of the code: it needs an End of its own.
+            // A trailing line without code (REM, DATA) or a label behind the last statement
+            // (IF c THEN END) is a branch target whose address is the end of the code: it
+            // needs an End of its own.
             Some(Opcode::End) if !self.link.has_line_at_end() => {}
             _ => {
                 if let Err(error) = self.link.push(Opcode::End) {
